@@ -75,6 +75,7 @@ def run(ctx):
 
     exact_rule(ctx, syn)
     subslice_rule(ctx, syn)
+    slice_rule(ctx, prog)
 
     # ---------------- ERR
     r_err = ctx.rule("C12.ERR", "utf8byte / utf8byte_to_charpos return Ok only under an exact match on the cursor and otherwise fall through to Err; nothing in them can panic")
@@ -570,3 +571,35 @@ def subslice_rule(ctx, syn):
         if bad:
             ctx.report(r, "%s|%s|%s" % (f.file, (f.self_ty or f.trait or "?")[:40], bad[0]), "subslice_utf8_offset in %s %s: the empty selection at the end of a text (and every selection of an empty text) has its begin byte there, and every relative conversion on it `expect`s this answer" % (who, bad[1]), f.file, f.line)
     ctx.floor(r, len(fns), 3, "copies of subslice_utf8_offset")
+
+
+# ---------------------------------------------------------------------- SLICE
+def slice_rule(ctx, prog, rid="C12.SLICE"):
+    """every relative conversion finds the begin byte of a selection by the *address* of its text inside the resource's
+    buffer (subslice_utf8_offset(self.text())).  So text() of a selection has to be a slice of that buffer on every path -
+    also for an empty selection: a literal "" is equal as a string but lives elsewhere, and the conversions `expect` the
+    address to lie in the buffer."""
+    r = ctx.rule(rid, "text() of the text-selection wrappers returns a slice obtained from the resource's text on every path (never a string constant)")
+    n = 0
+    for bid, b in sorted(prog.bodies.items()):
+        m = re.search(r"^api::text::<impl text::Text<.*> for (.*TextSelection.*)>::text$", bid)
+        if not m or b.d.get("derived"):
+            continue
+        n += 1
+        ctx.functions_analysed.add(bid)
+        consts = []
+        for bi, blk in enumerate(b.blocks):
+            for s_ in blk["s"]:
+                if s_["p"]["l"] == 0 and not s_["p"]["p"]:
+                    rv = s_.get("rv") or {}
+                    ops = [rv.get("o")] if rv.get("o") else []
+                    if rv.get("r") == "ref" and rv.get("p"):
+                        ops.append({"m": {"l": rv["p"]["l"], "p": []}})   # `_0 = &*tmp`: look at what tmp holds
+                    for o in ops:
+                        k = str(b.key_of_operand(o))
+                        if k.startswith("const:"):
+                            consts.append((k, s_.get("line")))
+        r.hit(bid, sample={"wrapper": m.group(1), "constant_returns": [c_[0] for c_ in consts]})
+        for k, line in consts:
+            ctx.report(r, "%s|constant" % m.group(1), "text() of %s can return the constant %s instead of a slice of the resource's text: subslice_utf8_offset(self.text()) then finds no offset for it and utf8byte / utf8byte_to_charpos / text_by_offset / find_text_regex on that selection panic (`expect`)" % (m.group(1), k[6:]), b.file, line)
+    ctx.floor(r, n, 2, "text() implementations of selection wrappers")
